@@ -62,6 +62,7 @@ func (Keeper).Liquidate
     let D0 = ret(SubtractAmountFromPeriods, 1, 1)
     let DEC = ret(SubtractAmountFromPeriods, 1, 0)
     let UP = ret(ExtractUpcomingPeriods, 1, 0)
+    call ExtractUpcomingPeriods requires started: now > accStart && A > 0 && va != nil
     call CurrentPeriodShift use CountLenFrame(accStart, oldLock, va.LockupPeriods, len(oldLock), now)
     call CreateDenom use SumFrame(D0, periods, len(periods))
     call CreateDenom use CountLenFrame(accStart, oldLock, va.LockupPeriods, len(oldLock), now)
@@ -72,8 +73,11 @@ func (Keeper).Liquidate
     call CreateDenom requires split: forall j int :: past <= j && j < len(oldLock) ==> cadd(va.LockupPeriods[j].Amount, periods[j - past].Amount) == oldLock[j].Amount
                 && cnonneg(va.LockupPeriods[j].Amount) && cnonneg(periods[j - past].Amount)
     call CreateDenom requires kept: forall k int :: 0 <= k && k < past ==> va.LockupPeriods[k] == oldLock[k]
-    call CreateDenom requires no_earlier: T(now, periods, 1) == T(accStart, oldLock, past + 1)
-            && (forall k int :: 1 <= k && k < len(periods) ==> periods[k].Length == oldLock[past + k].Length)
+    call CreateDenom requires first_event: T(now, periods, 1) == T(accStart, oldLock, past + 1)
+    call CreateDenom requires later_events: forall k int :: 1 <= k && k < len(periods) ==> periods[k].Length == oldLock[past + k].Length
+    // the second SubtractAmountFromPeriods (on the fully vested vesting schedule, whose total is the original amount)
+    // cannot fail for a valid account once the lockup check has passed
+    unreachable return11
     call SetAccount requires account: isdyn(acc, *CVA) && dyn(acc, *CVA) == va
             && va.OriginalVesting == csub(oldheap(va.OriginalVesting), cone(d, A)) && va.StartTime == oldheap(va.StartTime)
     allow frame
@@ -99,8 +103,11 @@ func (Keeper).Redeem
     call UpdateDenomPeriods requires shrunk: baseDenom == ld && len(newPeriods) == len(den.LockupPeriods)
             && Sum(newPeriods, len(newPeriods))[den.OriginalDenom] == Sum(den.LockupPeriods, len(den.LockupPeriods))[den.OriginalDenom] - A
             && (forall k int :: 0 <= k && k < len(newPeriods) ==> newPeriods[k].Length == den.LockupPeriods[k].Length)
-    call ApplyVestingSchedule requires schedule: funded == to && startTime == den.StartTime && coins == cone(den.OriginalDenom, A) && merge
-            && (exists c int :: 0 <= c && c <= len(den.LockupPeriods) && len(lockupPeriods) == len(den.LockupPeriods) - c
-                && (forall k int :: 0 <= k && k < len(lockupPeriods) ==> lockupPeriods[k].Length == den.LockupPeriods[c + k].Length))
+    call ApplyVestingSchedule requires recipient: funded == to && merge
+    call ApplyVestingSchedule requires anchored: startTime == den.StartTime
+    call ApplyVestingSchedule requires amount: coins == cone(den.OriginalDenom, A)
+    call ApplyVestingSchedule requires released_shape: len(lockupPeriods) == len(den.LockupPeriods)
+            && (forall k int :: 0 <= k && k < len(lockupPeriods) ==> lockupPeriods[k].Length == den.LockupPeriods[k].Length)
+    call ApplyVestingSchedule requires released_total: Sum(lockupPeriods, len(lockupPeriods))[den.OriginalDenom] == A
     allow frame
 @*/
